@@ -305,8 +305,59 @@ def r5_profile(ctx):
                 res = None
         ctx.check("R5", "%s|formula|%s" % (qn, tag), res, "coordinates == point1 + distances * (cos, sin)(atan2(dN, dE)), distances == linspace(0, |point2 - point1|, size)",
                   bad="profile_coordinates: " + detail, fn=qn, undecided="not comparable: " + detail)
+    # sign sensitivity: the direction of the profile must depend on the SIGN of both coordinate differences.  A term depends on a
+    # leaf "oddly" if the leaf occurs outside even contexts (hypot/sqrt-of-squares, **2, abs, square).
+    for p in ctx.paths(qn):
+        if p.exit != "return":
+            continue
+        v = p.value
+        if v[0] != "tuple" or len(v[1]) != 2:
+            continue
+        co = Q.unseq(v[1][0])
+        els = co[1] if co[0] in ("tuple", "list") else ()
+        tag = "extra" if lookup(p.decided, ("cmp", "is", ("param", "extra_coords"), NONE)) is False else "noextra"
+        for nm, k in (("easting", 0), ("northing", 1)):
+            if len(els) <= k:
+                continue
+            odd = odd_leaves(els[k])
+            need = Q.sub(("param", "point2"), k)
+            ctx.check("R5", "%s|direction-depends-on-sign-of-d%s|%s" % (qn, nm, tag), True if need in odd else False,
+                      "the %s of the profile depends on the sign of point2[%d] - point1[%d]" % (nm, k, k),
+                      bad="the %s of the profile depends on point2[%d] only through even functions (distance): profiles towards decreasing %s are mirrored" % (nm, k, nm), fn=qn)
     ok = any(p.exit == "raise" and p.conds and p.conds[-1][0] == ("cmp", "<=", ("param", "size"), const(0)) and p.conds[-1][1] for p in ctx.paths(qn))
     ctx.check("R5", qn + "|rejects-nonpositive-size", True if ok else False, "size <= 0 raises", bad="non-positive sizes are no longer rejected", fn=qn)
+
+
+EVEN_FUNCS = {"numpy.hypot", "numpy.abs", "numpy.absolute", "builtins.abs", "numpy.square", "math.hypot", "numpy.fabs", "numpy.linalg.norm"}
+
+
+def odd_leaves(t):
+    """leaves (parameters and their subscripts) that occur in t outside even contexts"""
+    out = set()
+
+    def go(x):
+        if not isinstance(x, tuple) or not x:
+            return
+        if isinstance(x[0], str):
+            if x[0] == "param" or (x[0] == "sub" and x[1][0] == "param"):
+                out.add(x)
+                return
+            if x[0] == "call" and callee(x) in EVEN_FUNCS:
+                return
+            if x[0] == "binop" and x[1] == "**" and x[3][0] == "const" and isinstance(x[3][1], int) and x[3][1] % 2 == 0:
+                return
+            if x[0] == "binop" and x[1] == "*" and x[2] == x[3]:
+                return
+            if x[0] in ("const", "glob", "lparam"):
+                return
+            for e in x[1:]:
+                if isinstance(e, tuple):
+                    go(e)
+        else:
+            for e in x:
+                go(e)
+    go(t)
+    return out
 
 
 def check(ctx):
